@@ -609,3 +609,58 @@ def state_domain_rule(rc, prefixes):
                     rc.fail(f, c, f"{f.qual}: `{norm(sk, 60)}` is already a state NUMBER (it comes from name_to_no / get_state_no) but `{nm}` takes state NAMES and translates them "
                             "again: with integer state names that differ from their positions the evidence is applied to another state", construct=f"{f.qual} state number passed as name to {nm}")
     rc.ob(f"state-domain typing: {n_fn} function(s) scanned, {n_sink} name-taking sink(s) in functions that also hold translated state numbers")
+
+
+# -------------------------------------------------------------------------------------------------
+# self.method() that no class of the hierarchy defines
+def undefined_self_method_rule(rc, files):
+    """For classes whose whole ancestry lives in the repository: a call `self.m(...)` where `m` is defined neither in the class nor in any of
+    its bases, is not assigned as an attribute anywhere in the hierarchy, and the hierarchy has no __getattr__, raises AttributeError whenever
+    the method is called on an instance of that class itself (it only works on subclasses that happen to add `m`)."""
+    repo = rc.repo
+    n_cls = n_calls = 0
+    for rel in files:
+        if rel not in repo.modules:
+            continue
+        for ci in repo.modules[rel].classes.values():
+            if [b for b in repo.external_bases(ci) if b.split(".")[-1] not in ("object", "ABC")]:
+                continue
+            mro = repo.mro(ci)
+            if any("__getattr__" in c.methods for c in mro):
+                continue
+            attrs = set()
+            for c in mro:
+                for st in c.node.body:
+                    if isinstance(st, ast.Assign):
+                        attrs |= {t.id for t in st.targets if isinstance(t, ast.Name)}
+                for m in c.methods.values():
+                    for n in ast.walk(m.node):
+                        if isinstance(n, ast.Attribute) and isinstance(n.ctx, ast.Store) and dotted(n.value) == "self":
+                            attrs.add(n.attr)
+                        if isinstance(n, ast.Call) and call_name(n) == "setattr" and n.args and dotted(n.args[0]) == "self":
+                            attrs.add("*")
+            if "*" in attrs:
+                continue
+            n_cls += 1
+            abstract = bool(repo.subclasses(ci))
+            for m in ci.methods.values():
+                for n in walk_no_nested(m.node):
+                    if isinstance(n, ast.Call) and isinstance(n.func, ast.Attribute) and dotted(n.func.value) == "self":
+                        n_calls += 1
+                        nm = n.func.attr
+                        if repo.resolve_method(ci, nm) is None and nm not in attrs and not nm.startswith("__"):
+                            sub = [s.name for s in repo.subclasses(ci) if repo.resolve_method(s, nm) is not None]
+                            guarded = any(isinstance(p, ast.IfExp) or isinstance(p, ast.If) for p in _ancestors(n)) and "hasattr" in norm(m.node, 100000)
+                            if guarded:
+                                continue
+                            rc.fail(m, n, f"{m.qual} calls `self.{nm}(...)`, but neither {ci.name} nor its bases define `{nm}`" +
+                                    (f" (only the subclass(es) {sub} do)" if sub else "") + f": on a plain {ci.name} the call raises AttributeError",
+                                    construct=f"{m.qual} undefined self.{nm}")
+    rc.ob(f"self-method resolution: {n_cls} class(es) with a fully known ancestry, {n_calls} `self.m(...)` call(s) resolved")
+
+
+def _ancestors(n):
+    p = getattr(n, "_parent", None)
+    while p is not None:
+        yield p
+        p = getattr(p, "_parent", None)
